@@ -137,6 +137,11 @@ def check_split(case):
         if len(texts) > 1 and not isinstance(tree_multi, str):
             # the same files under equal base names in different directories
             try:
+                tree_unsorted = gen.matlab(None, files=texts, names=['z_first.i', 'a_second.i', 'm_third.i'][:len(texts)])
+                if tree_unsorted != tree_one:
+                    add('C16|matlab-files|file-names-not-in-alphabetical-order', 'wrapping [z_first.i, a_second.i, m_third.i] differs from wrapping the single '
+                        'file holding their declarations in the listed order: %s'
+                        % [k for k in sorted(set(tree_unsorted) | set(tree_one)) if tree_unsorted.get(k) != tree_one.get(k)][:6])
                 tree_dirs = gen.matlab(None, files=texts, names=['geometry/types.i', 'linear/solver.i', 'linear/types.i'][:len(texts)])
             except Exception as e:
                 tree_dirs = 'EXC %s: %s' % (type(e).__name__, str(e)[:150])
@@ -364,6 +369,10 @@ def run(ctx):
             for ext in ('.i', '.h'):
                 for st in ([stems[:3], [stems[0], stems[2], stems[3]]] if ctx.thorough or ext == '.i' else [stems[:3]]):
                     cases.append({'mode': 'split', 'groups': groups, 'ending': ending, 'stems': st, 'ext': ext})
+    # stems of additional files that occur inside the main file's name (and inside each other)
+    for groups in splits(n, 3):
+        for st in (['nav_all', 'nav', 'all'], ['src', 'i', 'geo']):
+            cases.append({'mode': 'split', 'groups': groups, 'ending': 'newline', 'stems': st, 'ext': '.i'})
     for ending in ('none', 'line-comment', 'newline', 'block-comment', 'open-ended-comment-text'):
         for groups in ([[0, 1], [], [2, 3]], [[0, 1, 2, 3], []], [[0], [1, 2, 3], []]):
             cases.append({'mode': 'split', 'groups': groups, 'ending': ending, 'stems': stems[:3], 'ext': '.i'})
